@@ -341,8 +341,8 @@ func runProperty(id, tier, only string) int {
 	if s := os.Getenv("VERIF_SEED"); s != "" {
 		seed, _ = strconv.Atoi(s)
 	}
-	os.MkdirAll(filepath.Join(verifDir, "evidence"), 0o755)
-	os.MkdirAll(filepath.Join(verifDir, "replays"), 0o755)
+	os.MkdirAll(filepath.Join(outDir, "evidence"), 0o755)
+	os.MkdirAll(filepath.Join(outDir, "replays"), 0o755)
 	known := loadKnown()
 	var jobs []Job
 	for _, hs := range specs {
@@ -442,7 +442,7 @@ func runProperty(id, tier, only string) int {
 				rf := &replayFile{Property: id, Pkg: ro.t.jr.Pkg, Harness: ro.t.jr.Func, Kind: ro.t.o.Kind, Label: ro.t.o.Label, Pos: ro.t.o.Pos, Values: ro.t.o.Values}
 				jb, _ := json.MarshalIndent(rf, "", " ")
 				h := sha1.Sum(jb)
-				ro.path = filepath.Join(verifDir, "replays", fmt.Sprintf("%s-%s-%x.json", id, ro.t.jr.Func, h[:5]))
+				ro.path = filepath.Join(outDir, "replays", fmt.Sprintf("%s-%s-%x.json", id, ro.t.jr.Func, h[:5]))
 				os.WriteFile(ro.path, jb, 0o644)
 				ro.nres, ro.nout = runNative(rf, ro.path, 120*time.Second)
 			}(ro)
@@ -481,7 +481,7 @@ func runProperty(id, tier, only string) int {
 	}
 	ev := buildEvidence(ps, tier, seed, specs, results, violations, inconclusive, spurious, broken, knownHit, skipped, time.Since(t0).Seconds())
 	eb, _ := json.MarshalIndent(ev, "", " ")
-	os.WriteFile(filepath.Join(verifDir, "evidence", id+".json"), eb, 0o644)
+	os.WriteFile(filepath.Join(outDir, "evidence", id+".json"), eb, 0o644)
 	os.RemoveAll(workDir)
 	fmt.Printf("property %s tier %s: jobs=%d (skipped cases %d) violations=%d inconclusive=%d spurious=%d broken=%d known=%d wall=%.1fs\n",
 		id, tier, len(results), skipped, violations, inconclusive, spurious, broken, knownHit, time.Since(t0).Seconds())
